@@ -8,7 +8,12 @@
        rank in the attractor of the pursued goal                   (rho_3), or
      - happens at a state of the pursued goal and advances it      (rho_4);
    in the last two cases the state is outside cpre(previous basin) and the
-   state reached is in cpre(previous basin) or in the persistence predicate. *)
+   state reached is in cpre(previous basin) or in the persistence predicate.
+   The level-0 part of rho_1 (the repair of finding F3: steps out of
+   cpre(FALSE) towards the EMPTY basin) contains no step in which the
+   environment keeps its action (RabinClosure1.ca_false_breaks_env, used in
+   rabin_step_kinds): such a step ends the behaviour considered here, so it
+   does not occur in this list. *)
 From Coq Require Import List Bool Arith Lia.
 Import ListNotations.
 From Omega Require Import L4.Arena L4.ArenaFacts L4.Kleene L4.AlgOrder L4.GameSpec.
